@@ -78,6 +78,9 @@ func (c *Ctx) Outcome(s string, nontrivial bool) {
 	k := h.Sum64()
 	if _, ok := c.outcomes[k]; !ok {
 		c.outcomes[k] = struct{}{}
+		if os.Getenv("VERIF_DUMP_OUTCOMES") != "" {
+			fmt.Fprintln(os.Stderr, "outcome:", trunc(s, 300))
+		}
 		if len(c.R.Samples) < 3 {
 			c.R.Samples = append(c.R.Samples, trunc(s, 400))
 		}
